@@ -175,7 +175,8 @@ def model_world(world, extmod=None):
 
 VAR_VALUES = [jv("int", "0"), jv("int", "5"), jv("str", "a"), jv("str", ""), jv("int", "-3"),
               jv("list", [jv("int", "1"), jv("str", "x")]), jv("dict", [[jv("str", "k"), jv("int", "1")]]),
-              jv("list", [jv("int", "2")]), jv("bool", True), jv("none"), jv("tuple", [jv("int", "7"), jv("str", "y")])]
+              jv("list", [jv("int", "2")]), jv("bool", True), jv("none"), jv("tuple", [jv("int", "7"), jv("str", "y")]),
+              jv("tuple", [jv("list", [jv("int", "3")]), jv("str", "z")])]
 # NB: both pools are injective for dds_hash (no two members in one C05 collision class: no True next to 1,
 # no [] next to ''), so that a C05 identification never shows up as a C01 staleness.
 CONSTS = [jv("int", "1"), jv("int", "2"), jv("str", "s"), jv("none"), jv("bool", False), jv("str", "")]
@@ -505,7 +506,7 @@ def same_hash_class(a, b):
     return c05.canon(a, rules) == c05.canon(b, rules)
 
 
-EDIT_KINDS = ["body", "var", "const_arg", "unrelated_fun", "unrelated_var", "reorder", "ext", "revert", "delete_call", "whitespace", "rt_arg", "multiline", "wrap_lit"]
+EDIT_KINDS = ["body", "var", "const_arg", "unrelated_fun", "unrelated_var", "reorder", "ext", "revert", "delete_call", "whitespace", "rt_arg", "multiline", "wrap_lit", "inplace_var"]
 
 
 def bump_tag(tag):
@@ -531,6 +532,34 @@ def apply_edit(rng, world, kind):
                 new = rng.choice([x for x in VAR_VALUES if not same_hash_class(x, old)])
                 pair[1] = new
         return w, {"kind": kind, "var": v}
+    if kind == "inplace_var":
+        # a tracked variable is updated IN PLACE (no rebinding, no reload of the module): a list grows, a dict gets a key,
+        # a list inside a tuple grows
+        used = sorted({v for f in w["funs"] for v in f.get("reads", [])})
+        cands = []
+        for pair in w["vars"]:
+            if pair[0] not in used:
+                continue
+            pair[1] = copy.deepcopy(pair[1])      # two variables may have been given the same pool object
+            val = pair[1]
+            if val["t"] == "list":
+                cands.append((pair, "%s.append(%%d)" % pair[0], val["v"]))
+            elif val["t"] == "dict":
+                cands.append((pair, None, None))
+            elif val["t"] == "tuple" and val["v"] and val["v"][0]["t"] == "list":
+                cands.append((pair, "%s[0].append(%%d)" % pair[0], val["v"][0]["v"]))
+        if not cands:
+            return None
+        pair, tmpl, target = rng.choice(cands)
+        n = 10 + rng.randint(0, 89)
+        if tmpl is None:
+            key = "k%d" % n
+            pair[1]["v"].append([jv("str", key), jv("int", str(n))])
+            stmt = "%s[%r] = %d" % (pair[0], key, n)
+        else:
+            target.append(jv("int", str(n)))
+            stmt = tmpl % n
+        return w, {"kind": "var", "var": pair[0], "inplace": stmt}
     if kind == "const_arg":
         sites = [(f, it, a) for f in w["funs"] for it in f["items"] if it["k"] in ("keep", "call")
                  for a in list(it.get("args", [])) + [x for (_, x) in it.get("kwargs", [])] if "c" in a]
